@@ -36,6 +36,72 @@ KERNELS = [
     ('MutexEvent_Set', 'src/util/mutex_event.cpp', None, 'yaclib::detail::MutexEvent', 'mutex_event.cpp', 'Set', 0),
     ('MutexEvent_Wait', 'src/util/mutex_event.cpp', None, 'yaclib::detail::MutexEvent', 'mutex_event.cpp', 'Wait', 0),
     ('CallCallback_Impl', None, ['yaclib/algo/detail/wait_event.hpp'], 'yaclib::detail::CallCallback', 'wait_event.hpp', 'Impl', 'template'),
+    # ---- strand (C07)
+    ('Strand_Submit', 'src/exe/strand.cpp', None, 'yaclib::Strand', 'strand.cpp', 'Submit', 0),
+    ('Strand_Call', 'src/exe/strand.cpp', None, 'yaclib::Strand', 'strand.cpp', 'Call', 0),
+    ('Strand_Drop', 'src/exe/strand.cpp', None, 'yaclib::Strand', 'strand.cpp', 'Drop', 0),
+    # ---- coroutine Mutex (C14)
+    ('MutexImpl_TryLockAwait', None, ['yaclib/coro/mutex.hpp'], 'yaclib::detail::MutexImpl', 'coro/mutex.hpp', 'TryLockAwait', 0),
+    ('MutexImpl_AwaitLock', None, ['yaclib/coro/mutex.hpp'], 'yaclib::detail::MutexImpl', 'coro/mutex.hpp', 'AwaitLock', 0),
+    ('MutexImpl_TryUnlockAwait', None, ['yaclib/coro/mutex.hpp'], 'yaclib::detail::MutexImpl', 'coro/mutex.hpp', 'TryUnlockAwait', 0),
+    ('MutexImpl_BatchingPossible', None, ['yaclib/coro/mutex.hpp'], 'yaclib::detail::MutexImpl', 'coro/mutex.hpp', 'BatchingPossible', 0),
+    ('MutexImpl_UnlockHereAwait', None, ['yaclib/coro/mutex.hpp'], 'yaclib::detail::MutexImpl', 'coro/mutex.hpp', 'UnlockHereAwait', 0),
+    ('MutexImpl_AwaitUnlock', None, ['yaclib/coro/mutex.hpp'], 'yaclib::detail::MutexImpl', 'coro/mutex.hpp', 'AwaitUnlock', 0),
+    ('MutexImpl_AwaitUnlockOn', None, ['yaclib/coro/mutex.hpp'], 'yaclib::detail::MutexImpl', 'coro/mutex.hpp', 'AwaitUnlockOn', 0),
+    ('MutexImpl_TryLock', None, ['yaclib/coro/mutex.hpp'], 'yaclib::detail::MutexImpl', 'coro/mutex.hpp', 'TryLock', 0),
+    ('MutexImpl_UnlockHere', None, ['yaclib/coro/mutex.hpp'], 'yaclib::detail::MutexImpl', 'coro/mutex.hpp', 'UnlockHere', 0),
+    ('MutexImpl_GetHead', None, ['yaclib/coro/mutex.hpp'], 'yaclib::detail::MutexImpl', 'coro/mutex.hpp', 'GetHead', 0),
+    ('UnlockAwaiter_await_ready', None, ['yaclib/coro/mutex.hpp'], 'yaclib::detail::UnlockAwaiter', 'coro/mutex.hpp', 'await_ready', 0),
+    ('UnlockAwaiter_await_suspend', None, ['yaclib/coro/mutex.hpp'], 'yaclib::detail::UnlockAwaiter', 'coro/mutex.hpp', 'await_suspend', 'template'),
+    ('UnlockOnAwaiter_await_ready', None, ['yaclib/coro/mutex.hpp'], 'yaclib::detail::UnlockOnAwaiter', 'coro/mutex.hpp', 'await_ready', 0),
+    ('UnlockOnAwaiter_await_suspend', None, ['yaclib/coro/mutex.hpp'], 'yaclib::detail::UnlockOnAwaiter', 'coro/mutex.hpp', 'await_suspend', 'template'),
+    ('LockAwaiter_await_ready', None, ['yaclib/coro/mutex.hpp'], 'yaclib::detail::LockAwaiter', 'mutex_awaiter.hpp', 'await_ready', 0),
+    ('LockAwaiter_await_suspend', None, ['yaclib/coro/mutex.hpp'], 'yaclib::detail::LockAwaiter', 'mutex_awaiter.hpp', 'await_suspend', 'template'),
+    ('GuardAwaiter_await_resume', None, ['yaclib/coro/mutex.hpp'], 'yaclib::detail::GuardAwaiter', 'mutex_awaiter.hpp', 'await_resume', 0),
+    ('LockStickyAwaiter_await_ready', None, ['yaclib/coro/mutex.hpp'], 'yaclib::detail::LockStickyAwaiter', 'guard_sticky.hpp', 'await_ready', 0),
+    ('LockStickyAwaiter_await_suspend', None, ['yaclib/coro/mutex.hpp'], 'yaclib::detail::LockStickyAwaiter', 'guard_sticky.hpp', 'await_suspend', 'template'),
+    ('UnlockStickyAwaiter_await_ready', None, ['yaclib/coro/mutex.hpp'], 'yaclib::detail::UnlockStickyAwaiter', 'guard_sticky.hpp', 'await_ready', 0),
+    ('UnlockStickyAwaiter_await_suspend', None, ['yaclib/coro/mutex.hpp'], 'yaclib::detail::UnlockStickyAwaiter', 'guard_sticky.hpp', 'await_suspend', 'template'),
+    ('GuardStickyAwaiter_await_ready', None, ['yaclib/coro/mutex.hpp'], 'yaclib::detail::GuardStickyAwaiter', 'guard_sticky.hpp', 'await_ready', 0),
+    ('GuardStickyAwaiter_await_suspend', None, ['yaclib/coro/mutex.hpp'], 'yaclib::detail::GuardStickyAwaiter', 'guard_sticky.hpp', 'await_suspend', 'template'),
+    ('GuardStickyAwaiter_await_resume', None, ['yaclib/coro/mutex.hpp'], 'yaclib::detail::GuardStickyAwaiter', 'guard_sticky.hpp', 'await_resume', 0),
+    ('StickyGuard_Lock', None, ['yaclib/coro/mutex.hpp'], 'yaclib::StickyGuard', 'guard_sticky.hpp', 'Lock', 0),
+    ('StickyGuard_Unlock', None, ['yaclib/coro/mutex.hpp'], 'yaclib::StickyGuard', 'guard_sticky.hpp', 'Unlock', 0),
+    ('Guard_dtor', None, ['yaclib/coro/mutex.hpp'], 'yaclib::detail::Guard', 'coro/guard.hpp', '~Guard<M, Shared>', 0),
+    ('Guard_Lock', None, ['yaclib/coro/mutex.hpp'], 'yaclib::detail::Guard', 'coro/guard.hpp', 'Lock', 0),
+    ('Guard_TryLock', None, ['yaclib/coro/mutex.hpp'], 'yaclib::detail::Guard', 'coro/guard.hpp', 'TryLock', 0),
+    ('Guard_Unlock', None, ['yaclib/coro/mutex.hpp'], 'yaclib::detail::Guard', 'coro/guard.hpp', 'Unlock', 0),
+    ('Guard_UnlockOn', None, ['yaclib/coro/mutex.hpp'], 'yaclib::detail::Guard', 'coro/guard.hpp', 'UnlockOn', 0),
+    ('Guard_UnlockHere', None, ['yaclib/coro/mutex.hpp'], 'yaclib::detail::Guard', 'coro/guard.hpp', 'UnlockHere', 0),
+    ('Guard_TryLockImpl', None, ['yaclib/coro/mutex.hpp'], 'yaclib::detail::Guard', 'coro/guard.hpp', 'TryLockImpl', 0),
+    ('Mutex_TryGuard', None, ['yaclib/coro/mutex.hpp'], 'yaclib::Mutex', 'coro/mutex.hpp', 'TryGuard', 0),
+    ('Mutex_Guard', None, ['yaclib/coro/mutex.hpp'], 'yaclib::Mutex', 'coro/mutex.hpp', 'Guard', 0),
+    ('Mutex_GuardSticky', None, ['yaclib/coro/mutex.hpp'], 'yaclib::Mutex', 'coro/mutex.hpp', 'GuardSticky', 0),
+    ('Mutex_Lock', None, ['yaclib/coro/mutex.hpp'], 'yaclib::Mutex', 'coro/mutex.hpp', 'Lock', 0),
+    ('Mutex_Unlock', None, ['yaclib/coro/mutex.hpp'], 'yaclib::Mutex', 'coro/mutex.hpp', 'Unlock', 0),
+    ('Mutex_UnlockOn', None, ['yaclib/coro/mutex.hpp'], 'yaclib::Mutex', 'coro/mutex.hpp', 'UnlockOn', 0),
+    # ---- coroutine SharedMutex (C15)
+    ('SharedMutexImpl_TryLockSharedAwait', None, ['yaclib/coro/shared_mutex.hpp'], 'yaclib::detail::SharedMutexImpl', 'coro/shared_mutex.hpp', 'TryLockSharedAwait', 0),
+    ('SharedMutexImpl_TryLockAwait', None, ['yaclib/coro/shared_mutex.hpp'], 'yaclib::detail::SharedMutexImpl', 'coro/shared_mutex.hpp', 'TryLockAwait', 0),
+    ('SharedMutexImpl_AwaitLockShared', None, ['yaclib/coro/shared_mutex.hpp'], 'yaclib::detail::SharedMutexImpl', 'coro/shared_mutex.hpp', 'AwaitLockShared', 0),
+    ('SharedMutexImpl_AwaitLock', None, ['yaclib/coro/shared_mutex.hpp'], 'yaclib::detail::SharedMutexImpl', 'coro/shared_mutex.hpp', 'AwaitLock', 0),
+    ('SharedMutexImpl_TryLockShared', None, ['yaclib/coro/shared_mutex.hpp'], 'yaclib::detail::SharedMutexImpl', 'coro/shared_mutex.hpp', 'TryLockShared', 0),
+    ('SharedMutexImpl_TryLock', None, ['yaclib/coro/shared_mutex.hpp'], 'yaclib::detail::SharedMutexImpl', 'coro/shared_mutex.hpp', 'TryLock', 0),
+    ('SharedMutexImpl_UnlockHereShared', None, ['yaclib/coro/shared_mutex.hpp'], 'yaclib::detail::SharedMutexImpl', 'coro/shared_mutex.hpp', 'UnlockHereShared', 0),
+    ('SharedMutexImpl_UnlockHere', None, ['yaclib/coro/shared_mutex.hpp'], 'yaclib::detail::SharedMutexImpl', 'coro/shared_mutex.hpp', 'UnlockHere', 0),
+    ('SharedMutexImpl_Run', None, ['yaclib/coro/shared_mutex.hpp'], 'yaclib::detail::SharedMutexImpl', 'coro/shared_mutex.hpp', 'Run', 0),
+    ('SharedMutexImpl_RunWriter', None, ['yaclib/coro/shared_mutex.hpp'], 'yaclib::detail::SharedMutexImpl', 'coro/shared_mutex.hpp', 'RunWriter', 0),
+    ('SharedMutexImpl_PassReaders', None, ['yaclib/coro/shared_mutex.hpp'], 'yaclib::detail::SharedMutexImpl', 'coro/shared_mutex.hpp', 'PassReaders', 0),
+    ('SharedMutexImpl_RunReaders', None, ['yaclib/coro/shared_mutex.hpp'], 'yaclib::detail::SharedMutexImpl', 'coro/shared_mutex.hpp', 'RunReaders', 0),
+    ('SharedMutexImpl_SlowUnlock', None, ['yaclib/coro/shared_mutex.hpp'], 'yaclib::detail::SharedMutexImpl', 'coro/shared_mutex.hpp', 'SlowUnlock', 0),
+    ('Spinlock_lock', None, ['yaclib/coro/shared_mutex.hpp'], 'yaclib::detail::Spinlock', 'spinlock.hpp', 'lock', 0),
+    ('Spinlock_unlock', None, ['yaclib/coro/shared_mutex.hpp'], 'yaclib::detail::Spinlock', 'spinlock.hpp', 'unlock', 0),
+    ('SharedMutex_Lock', None, ['yaclib/coro/shared_mutex.hpp'], 'yaclib::SharedMutex', 'coro/shared_mutex.hpp', 'Lock', 0),
+    ('SharedMutex_LockShared', None, ['yaclib/coro/shared_mutex.hpp'], 'yaclib::SharedMutex', 'coro/shared_mutex.hpp', 'LockShared', 0),
+    ('SharedMutex_TryGuard', None, ['yaclib/coro/shared_mutex.hpp'], 'yaclib::SharedMutex', 'coro/shared_mutex.hpp', 'TryGuard', 0),
+    ('SharedMutex_TryGuardShared', None, ['yaclib/coro/shared_mutex.hpp'], 'yaclib::SharedMutex', 'coro/shared_mutex.hpp', 'TryGuardShared', 0),
+    ('SharedMutex_Guard', None, ['yaclib/coro/shared_mutex.hpp'], 'yaclib::SharedMutex', 'coro/shared_mutex.hpp', 'Guard', 0),
+    ('SharedMutex_GuardShared', None, ['yaclib/coro/shared_mutex.hpp'], 'yaclib::SharedMutex', 'coro/shared_mutex.hpp', 'GuardShared', 0),
 ]
 
 
